@@ -306,11 +306,13 @@ def sigFor (sig : Option Json) (i : Nat) : Option Json :=
   | some (.arr l) => l[i]?
   | _ => none
 
-/-- sub-verifier for key number `i` (nested key lists are not modelled: NULL) -/
-def subFor (P : Prims) (jws : Json) (sig : Option Json) (keys : List Json) (i : Nat) : Option IO.Stage :=
+/-- sub-verifier for key number `i`; an element that is itself a key list (array or JWKSet) is handed to `nested`
+    (the recursive call of `jose_jws_ver_io` on it) -/
+def subFor (nested : Option Json → Json → Option IO.Stage) (P : Prims) (jws : Json) (sig : Option Json)
+    (keys : List Json) (i : Nat) : Option IO.Stage :=
   match keys[i]? with
   | some k => (match keyList k with
-      | some _ => none
+      | some _ => nested (sigFor sig i) k
       | none => verKey P jws (sigFor sig i) k)
   | none => none
 
@@ -318,18 +320,45 @@ def sigSizeOk (sig : Option Json) (n : Nat) : Bool :=
   match sig with | some (.arr l) => l.length == n | _ => true
 
 /-- keys array / JWKSet: one sub-verifier per key -/
-def verKeys (P : Prims) (jws : Json) (sig : Option Json) (keys : List Json) (all : Bool) : Option IO.Stage :=
+def verKeys (nested : Option Json → Json → Option IO.Stage) (P : Prims) (jws : Json) (sig : Option Json)
+    (keys : List Json) (all : Bool) : Option IO.Stage :=
   if !sigSizeOk sig keys.length then none
   else
-    let subs := (List.range keys.length).map (subFor P jws sig keys)
+    let subs := (List.range keys.length).map (subFor nested P jws sig keys)
     if all && subs.any Option.isNone then none
     else some (.plex all (branchesOf (subs.filterMap id)))
 
-/-- `jose_jws_ver_io(cfg, jws, sig, jwk, all)`; `none` = NULL -/
+mutual
+  /-- nesting depth of a JSON value (arrays and objects) -/
+  def jdepth : Json → Nat
+    | .arr l => 1 + jdepthList l
+    | .obj kvs => 1 + jdepthObj kvs
+    | _ => 0
+  def jdepthList : List Json → Nat
+    | [] => 0
+    | j :: r => max (jdepth j) (jdepthList r)
+  def jdepthObj : List (String × Json) → Nat
+    | [] => 0
+    | (_, v) :: r => max (jdepth v) (jdepthObj r)
+end
+
+/-- `jose_jws_ver_io` with the recursion on nested key lists unrolled `fuel` times.  A key list inside a key
+    list is verified by the same function with the same `all` (after fix F29: before it the inner list was always
+    verified in `any` mode, so that `all` could be satisfied without every key verifying) -/
+def verIoF (P : Prims) (jws : Json) : Nat → Option Json → Json → Bool → Option IO.Stage
+  | 0, sig, jwk, all =>
+    (match keyList jwk with
+     | some keys => verKeys (fun _ _ => none) P jws sig keys all
+     | none => verKey P jws sig jwk)
+  | f + 1, sig, jwk, all =>
+    (match keyList jwk with
+     | some keys => verKeys (fun s k => verIoF P jws f s k all) P jws sig keys all
+     | none => verKey P jws sig jwk)
+
+/-- `jose_jws_ver_io(cfg, jws, sig, jwk, all)`; `none` = NULL.  The C function recurses as deep as key lists are
+    nested, which is at most the nesting depth of the key argument. -/
 def verIo (P : Prims) (jws : Json) (sig : Option Json) (jwk : Json) (all : Bool) : Option IO.Stage :=
-  match keyList jwk with
-  | some keys => verKeys P jws sig keys all
-  | none => verKey P jws sig jwk
+  verIoF P jws (jdepth jwk) sig jwk all
 
 /-- the payload text of a JWS (`{s:s%}`) -/
 def payloadOf (jws : Json) : Option Bs :=
